@@ -299,8 +299,9 @@ func clone(output map[core.PubKey][]core.ParSignedData) map[core.PubKey][]core.P
 }
 
 // getThresholdMatching returns true and threshold number of partial signed data with identical data or false.
+// sigs must be in insertion order: only the data matching the last (most recently stored) element is considered.
 func getThresholdMatching(typ core.DutyType, sigs []core.ParSignedData, threshold int) ([]core.ParSignedData, bool, error) {
-	if len(sigs) < threshold {
+	if len(sigs) == 0 || len(sigs) < threshold {
 		return nil, false, nil
 	}
 
@@ -309,7 +310,16 @@ func getThresholdMatching(typ core.DutyType, sigs []core.ParSignedData, threshol
 		return sigs, len(sigs) == threshold, nil
 	}
 
-	sigsByMsgRoot := make(map[[32]byte][]core.ParSignedData) // map[Root][]ParSignedData
+	// Only the group of the most recently stored signature (the last one) can have *reached* the
+	// threshold just now. Any other group of exactly threshold size reached it in an earlier call
+	// and was returned then; returning it again (e.g. when a late partial signature with a
+	// different message root arrives) would trigger aggregation of the same data a second time.
+	lastRoot, err := sigs[len(sigs)-1].MessageRoot()
+	if err != nil {
+		return nil, false, err
+	}
+
+	var set []core.ParSignedData
 
 	for _, sig := range sigs {
 		root, err := sig.MessageRoot()
@@ -317,14 +327,14 @@ func getThresholdMatching(typ core.DutyType, sigs []core.ParSignedData, threshol
 			return nil, false, err
 		}
 
-		sigsByMsgRoot[root] = append(sigsByMsgRoot[root], sig)
+		if root == lastRoot {
+			set = append(set, sig)
+		}
 	}
 
 	// Return true if we have "threshold" number of signatures.
-	for _, set := range sigsByMsgRoot {
-		if len(set) == threshold {
-			return set, true, nil
-		}
+	if len(set) == threshold {
+		return set, true, nil
 	}
 
 	return nil, false, nil
